@@ -20,6 +20,30 @@ Definition r_tie (c : rcase) : bool :=
 Definition is_ok_with (l : list (str * N * Z)) (o : fout) : bool :=
   match o with ROk x => trips_eqb x (flat (to_ents l)) | _ => false end.
 
+(* the order the property states, read off the text itself by the independent reference reader: plain carbon first,
+   then plain hydrogen, then the remaining keys strictly increasing by (symbol, isotope) *)
+Fixpoint lex_ltb (a b : str) : bool :=
+  match a, b with
+  | [], [] => false
+  | [], _ :: _ => true
+  | _ :: _, [] => false
+  | x :: r, y :: s => if (x <? y)%N then true else if (y <? x)%N then false else lex_ltb r s
+  end.
+Definition key_ltb7 (a b : str * N) : bool := if str_eqb (fst a) (fst b) then (snd a <? snd b)%N else lex_ltb (fst a) (fst b).
+Definition is_plain7 (c : N) (k : str * N) : bool := str_eqb (fst k) [c] && (snd k =? 0)%N.
+Definition strip1 (c : N) (ks : list (str * N)) : list (str * N) :=
+  match ks with k :: r => if is_plain7 c k then r else ks | [] => [] end.
+Fixpoint increasing7 (ks : list (str * N)) : bool :=
+  match ks with a :: ((b :: _) as r) => key_ltb7 a b && increasing7 r | _ => true end.
+Definition canonical_order (ks : list (str * N)) : bool :=
+  let r := strip1 72 (strip1 67 ks) in
+  forallb (fun k => negb (is_plain7 67 k) && negb (is_plain7 72 k)) r && increasing7 r.
+Definition text_order_ok (t : str) : bool :=
+  match reference uni_num he hi t with
+  | Some f => canonical_order (map (fun it => match it with El sy i _ => (sy, iso_val i) | Gr _ _ => ([], 0%N) end) f)
+  | None => false
+  end.
+
 (* one text whatever the insertion order and representation; it parses back to the same entries through all three
    FromStr impls; the serde forms are that text, quoted, and deserialize to the same entries *)
 Definition r_holds (c : rcase) : bool :=
@@ -27,7 +51,8 @@ Definition r_holds (c : rcase) : bool :=
   | [] => Nat.eqb (List.length (rc_texts c)) 1      (* the empty composition has no text to round-trip *)
   | _ =>
     match rc_texts c with
-    | [t] => forallb (is_ok_with (rc_ents c)) (rc_back c)
+    | [t] => text_order_ok t
+             && forallb (is_ok_with (rc_ents c)) (rc_back c)
              && forallb (is_ok_with (rc_ents c)) (rc_de c)
              && forallb (fun j => str_eqb j ([34%N] ++ t ++ [34%N])%list) (rc_json c)
     | _ => false
